@@ -51,7 +51,7 @@ def c30Step (st : C30St) (op impl : String) : C30St × String × String :=
     if !st.alive then (st, "no-allocator", "ok") else
     match (fields impl).map pN with
     | [some id, some fl] =>
-      let (mo, mfl) := match runSeq nextProg 64 st.floor (spawnThread .next 0) [id] with
+      let (mo, mfl) := match runSeq nextProg 64 st.floor (spawnThread .next 0 init) [id] with
         | some (r, fl') => (s!"{retStr r} {fl'}", fl')
         | none => ("stuck", fl)
       let verdict :=
@@ -72,7 +72,7 @@ def c30Step (st : C30St) (op impl : String) : C30St × String × String :=
       match pN f, pN fl, (res == "ok" || res == "err") with
       | some f, some fl, true =>
         let gens := if fl != st.floor then [fl] else [f]
-        let (mo, mfl) := match runSeq setFloorProg 64 st.floor (spawnThread .setFloor f) gens with
+        let (mo, mfl) := match runSeq setFloorProg 64 st.floor (spawnThread .setFloor f init) gens with
           | some (r, fl') => (s!"{f} {retStr r} {fl'}", fl')
           | none => ("stuck", fl)
         let verdict :=
